@@ -31,7 +31,7 @@ func init() {
 		ID:    "C07",
 		Level: "exploration",
 		Rule: "G1: well-formed Accept / Accept-Encoding values from the RFC 7231 grammar (1-6 ranges over a 10-type vocabulary incl. */* and type/*, parameters before and after q, parameter names ending in 'q', " +
-			"quoted strings, q-values with 0-80 (one long value in 25: 120-1000) fractional digits on a 1e-5 grid (same number in several spellings; distinct numbers differ by >= 5e-6; in one header in ten some or all written values are raised by one: 1.5, 1.001, 1.99999, 1.<80 digits> - the RFC's qvalue shape with any digits in the fraction, denoting numbers above 1 that compete with each other, with exactly 1 (written, or a range without q) and with values below 1), optional SP/HTAB, 1-3 field lines; one header in a hundred holds 9, 17, 33, 65 or (rarely) 257 ranges, one in a hundred is spread over 5-40 field lines, in half of both the only acceptable range comes last) x offer lists " +
+			"quoted strings (one Accept header in eight hangs quoted values made of quoted-pairs on its ranges, in front of and behind the weight: escaped quotes, escaped backslashes - also as the last character, runs of 1 to 6 backslashes in front of the closing quote -, escaped and bare commas, semicolons and 'q=0' / ', text/html;q=1' inside the quotes; RFC 7230 quoted-string, read pair by pair by the reference), q-values with 0-80 (one long value in 25: 120-1000) fractional digits on a 1e-5 grid (same number in several spellings; distinct numbers differ by >= 5e-6; in one header in ten some or all written values are raised by one: 1.5, 1.001, 1.99999, 1.<80 digits> - the RFC's qvalue shape with any digits in the fraction, denoting numbers above 1 that compete with each other, with exactly 1 (written, or a range without q) and with values below 1), optional SP/HTAB, 1-3 field lines; one header in a hundred holds 9, 17, 33, 65 or (rarely) 257 ranges, one in a hundred is spread over 5-40 field lines, in half of both the only acceptable range comes last) x offer lists " +
 			"(permutations, duplicates, offers with parameters, empty; in 6% of the cases one to three offers are spelled with upper-case letters - application/vnd.ms-excel.sheet.macroEnabled.12, X-Snappy - and the header names them verbatim) x default present/absent; G2: arbitrary bytes and byte-level mutations of G1. Every case runs the real ParseAccept and Negotiate* functions; " +
 			"a share goes through the API handler (RoutesHandler over an untyped API built from generated Swagger 2.0; a body-less GET, DELETE or PUT and a POST twin with an admitted JSON body, each operation declaring one success response - 200, or 201, 202, 204 (a third of the operations; a quarter declare 204, the DELETE/PUT that answers without content) - which its handler answers with; the reflective operation handler and the call sequence of a generated server: RouteInfo, BindValidRequest, Respond - run from a Builder middleware on a Context made by NewContext, and, for a third of all requests, as the operation handler of a RoutableAPI (gen.GeneratedAPI) on a Context made by NewRoutableContext, the constructor generated servers use; one API default in ten carries parameters; one description in twelve declares types spelled with upper-case letters). " +
 			"One description in two keeps an operationId of its own for every operation; in the others all operations declare none (Swagger 2.0: optional), all share one, or each draws one of the three. Every handler instance (one Context) serves several requests to several operations of its description in sequence; each response is judged by the declaration of the operation that answers. A violation seen there is reported with the smallest case that shows it on a fresh handler: the operation alone, or the whole description with the (shrunk) list of requests the handler served before (preceding_requests), which a replay serves first. " +
@@ -54,6 +54,7 @@ func init() {
 			"API handler: the offers are the declared produces list (operation level, else spec level) plus the API default; MatchedRoute.Produces must hold exactly that set (its order is a map order fixed at router build and is the only thing read from it); 406 <=> nothing in the declared set is acceptable; Content-Type is judged against the statement's offer order (produces without the default, default last); an operation declaring 201, 202 or 204 as its success response is gated like one declaring 200 (the statement's 406 clause names no exception for responses without content), success is the declared status, and the Content-Type of a 204 response is judged only when the response carries one",
 			"'the media types an operation can produce' are those of the operation the request is routed to (method and path), whether or not it declares an operationId and whether or not another operation declares the same one; what a handler answered before - for this operation or another - has no part in a negotiation; preceding requests of a replayed case are served and not judged (each was judged when the run served it)",
 			"the caller's offers slice and header lines must not be modified by Negotiate*/Parse* (the result is judged against copies taken before the call, so a result that is only a member of a rewritten list is 'not an offer')",
+			"a quoted parameter value is an RFC 7230 quoted-string: it ends at the first DQUOTE that is not the second byte of a quoted-pair (backslash + any HTAB / SP / VCHAR / obs-text byte); what stands between the quotes belongs to that one parameter (never a weight, a parameter or a range of its own); control bytes other than HTAB inside the quotes are outside the judged grammar",
 			"ParseList, ParseValueAndParams, ParseAccept2, ParseTime: totality only",
 		},
 		MinNontrivial: 1500,
@@ -151,6 +152,7 @@ type verdict struct {
 	modified   string // what of the caller's the library modified: "offers" / "header"
 	mixed      bool   // judged through the mixed-case reading (offers or ranges with upper-case letters)
 	above1     bool   // a q-value of the header denotes a number above 1
+	quoted     string // the class of the header's quoted parameter values when one holds a quoted-pair (quotedClass)
 	modDetail  string
 }
 
@@ -287,6 +289,9 @@ func evalType(lines []string, offers []string, def string) (v verdict) {
 		return v
 	}
 	v.judged, v.mixed, v.above1 = true, mixed, qAbove1(p.Ranges)
+	if !mixed {
+		v.quoted = quotedClass(p.Ranges)
+	}
 	if p.Present {
 		v.pMode, v.pDetail = checkParseM(specs, p.Ranges, mixed)
 	}
@@ -479,6 +484,9 @@ func runFunc(m *mon.M, c *Case) {
 	if v.above1 {
 		m.Class(pfx + ":judged/q-above-1")
 	}
+	if v.quoted != "" {
+		m.Class(pfx + ":judged/" + v.quoted)
+	}
 	if v.decidedBy != "" {
 		m.Class(pfx + ":decided-by/" + v.decidedBy)
 		if v.mixed {
@@ -486,6 +494,9 @@ func runFunc(m *mon.M, c *Case) {
 		}
 		if v.above1 {
 			m.Class(pfx + ":q-above-1-decided-by/" + v.decidedBy)
+		}
+		if v.quoted != "" {
+			m.Class(pfx + ":" + v.quoted + "-decided-by/" + v.decidedBy)
 		}
 	}
 	if v.nontrivial {
@@ -523,6 +534,14 @@ func runFunc(m *mon.M, c *Case) {
 			return sl, so
 		}
 	}
+	if v.quoted != "" {
+		// quoted values are reduced element by element after the structural shrink
+		inner := shrink
+		shrink = func(l, o []string, media bool, fails func(l, o []string) bool) ([]string, []string) {
+			sl, so := inner(l, o, media, fails)
+			return shrinkQuotedValues(sl, so, media, fails), so
+		}
+	}
 	// the feature class of a parse violation: the header's most telling syntactic feature
 	feature := func(l []string, mixed bool) []string {
 		if mixed {
@@ -532,6 +551,9 @@ func runFunc(m *mon.M, c *Case) {
 		f := accept.Features(l, rs)
 		if qAbove1(rs) {
 			f = append([]string{"qvalue-above-1"}, f...)
+		}
+		if qc := quotedClass(rs); qc != "" {
+			f = append([]string{qc}, f...)
 		}
 		if countRanges(l) > 8 {
 			f = append([]string{"more-than-8-ranges"}, f...)
@@ -580,6 +602,9 @@ func runFunc(m *mon.M, c *Case) {
 		}
 		if w.above1 {
 			feat += "/qvalue-above-1"
+		}
+		if w.quoted != "" {
+			feat += "/" + w.quoted
 		}
 		if nr := countRanges(sl); nr > 8 {
 			feat += "/more-than-8-ranges"
@@ -1092,6 +1117,10 @@ func runHandlerOn(m *mon.M, c *Case, b *built, h http.Handler) {
 		m.Class("handler:judged/q-above-1")
 		shape += "/qvalue-above-1"
 	}
+	if qc := quotedClass(p.Ranges); qc != "" && !mixed {
+		m.Class("handler:judged/" + qc)
+		shape += "/" + qc
+	}
 	pFailed := false
 	if p.Present {
 		var specs []header.AcceptSpec
@@ -1289,7 +1318,9 @@ func genAPI(r, ro, rid *rand.Rand) *APIDesc {
 
 // genLines draws the field lines of one header. rq is a PRNG of its own for the q-values raised above 1 (one header
 // in raiseEvery): the draws of r, and with them every header that is not raised, are what they were without it.
-func genLines(r, rq *rand.Rand, types []string) (lines []string, absent bool, flavour string) {
+// rs is a PRNG of its own for the quoted parameter values with quoted-pairs (one header in quoteEvery), hung on the
+// ranges in front of and behind the weight.
+func genLines(r, rq, rs *rand.Rand, types []string) (lines []string, absent bool, flavour string) {
 	if r.Intn(14) == 0 {
 		return nil, true, "absent"
 	}
@@ -1297,6 +1328,9 @@ func genLines(r, rq *rand.Rand, types []string) (lines []string, absent bool, fl
 	raise := func(h accept.Header) {
 		if rq != nil && rq.Intn(raiseEvery) == 0 && raiseQ(rq, h) {
 			raised = "+q-above-1"
+		}
+		if rs != nil && rs.Intn(quoteEvery) == 0 && quotePairs(rs, h) {
+			raised += "+quoted-pairs"
 		}
 	}
 	switch r.Intn(100) {
@@ -1317,6 +1351,7 @@ func run(m *mon.M) {
 	// function level, G1
 	r := m.Rand("g1")
 	rq := m.Rand("q-above-1")
+	rs := m.Rand("quoted-pairs")
 	n := m.N(60000, 1500000)
 	for i := 0; i < n; i++ {
 		var c *Case
@@ -1345,7 +1380,7 @@ func run(m *mon.M) {
 			c = &Case{Kind: "enc", Absent: absent, Lines: mon.QS(lines), Offers: mon.QS(accept.GenCodingOffers(r))}
 			m.Class("flavour:" + fl)
 		} else {
-			lines, absent, fl := genLines(r, rq, accept.Types)
+			lines, absent, fl := genLines(r, rq, rs, accept.Types)
 			c = &Case{Kind: "type", Absent: absent, Lines: mon.QS(lines), Offers: mon.QS(accept.GenOffers(r)), Default: mon.Q(accept.GenDefault(r))}
 			m.Class("flavour:" + fl)
 		}
@@ -1368,7 +1403,7 @@ func run(m *mon.M) {
 			if r2.Intn(2) == 0 {
 				lines = append(lines, accept.GenBytes(r2))
 			} else {
-				l, _, _ := genLines(r2, rq, accept.Types)
+				l, _, _ := genLines(r2, rq, rs, accept.Types)
 				s := strings.Join(l, ",")
 				for e := 1 + r2.Intn(3); e > 0; e-- {
 					s = accept.Mutate(r2, s)
@@ -1427,7 +1462,7 @@ func run(m *mon.M) {
 				t = append(t, accept.Types[r3.Intn(len(accept.Types))])
 				types = t
 			}
-			lines, absent, fl := genLines(r3, rq, types)
+			lines, absent, fl := genLines(r3, rq, rs, types)
 			c := &Case{Kind: "handler", Absent: absent, Lines: mon.QS(lines), API: d, Op: op}
 			h, hk := hs[q%len(hs)], fmt.Sprint("plain-", q%len(hs))
 			switch r3.Intn(6) {
@@ -1445,7 +1480,7 @@ func run(m *mon.M) {
 			if !absent && len(lines) > 1 {
 				// follow-ups on the same handler that share the first field line with the request just served
 				// but are to be negotiated differently
-				other, _, _ := genLines(r3, rq, types)
+				other, _, _ := genLines(r3, rq, rs, types)
 				for _, fl := range [][]string{lines[:1], append([]string{lines[0]}, other...)} {
 					f := &Case{Kind: "handler", Lines: mon.QS(fl), API: d, Op: op, Flow: c.Flow, Body: c.Body, Earlier: [][]mon.Q{mon.QS(lines)}}
 					m.Class("handler-flavour:follow-up-sharing-first-line")
